@@ -65,7 +65,7 @@ theorem logGas_mem {p26 : Bool} {n : Nat} {m m' : Mem} {ms : Nat} {req r : Nat}
                 exact ⟨gas, hmg, by omega⟩
 
 theorem finishCall_mem {avail base : Nat} {cc : Word} {m m' : Mem} {g g' : Global} {cost cgt : Nat}
-    (h : finishCall avail base cc m g = .ok cost m' g' cgt) : m' = m ∧ base ≤ cost := by
+    (h : finishCall avail base cc m g = .ok cost m' g' cgt) : m' = m ∧ base + cgt = cost := by
   unfold finishCall at h
   simp only at h
   split at h
@@ -75,6 +75,12 @@ theorem finishCall_mem {avail base : Nat} {cc : Word} {m m' : Mem} {g g' : Globa
     have := safeAdd_ok (Bool.eq_false_iff.mpr hov)
     exact ⟨rfl, by omega⟩
 
+/-- the 2300 stipend a value-bearing CALL / CALLCODE adds to the forwarded gas -/
+def stipendOf (f : DynFn) (s : List Word) : Nat :=
+  match f with
+  | .call | .callcode => if back s 2 ≠ 0 then 2300 else 0
+  | _ => 0
+
 set_option maxHeartbeats 1000000 in
 /-- every gas function either leaves the memory record alone or charges at least what
     `memoryGasCost` asks for the requested size -/
@@ -82,7 +88,7 @@ theorem dynGas_mem (gc : GasCfg) (f : DynFn) (s : List Word) (m m' : Mem) (ms ga
     (cost cgt : Nat) (hfee : ∀ fee m1, memoryGasCost gc.p26 m ms = some (fee, m1) → fee < 2 ^ 63)
     (h : dynGas gc f s m ms gas self g = .ok cost m' g' cgt) :
     (usesMem f = false → m' = m) ∧
-    (usesMem f = true → ∃ fee, memoryGasCost gc.p26 m ms = some (fee, m') ∧ fee ≤ cost) := by
+    (usesMem f = true → ∃ fee, memoryGasCost gc.p26 m ms = some (fee, m') ∧ fee + cgt + stipendOf f s ≤ cost) := by
   cases f with
   | none => simp only [dynGas] at h; cases h; simp [usesMem]
   | unknown => simp only [dynGas] at h; cases h
@@ -90,22 +96,22 @@ theorem dynGas_mem (gc : GasCfg) (f : DynFn) (s : List Word) (m m' : Mem) (ms ga
     simp only [dynGas] at h
     split at h
     · cases h
-    · rename_i fee m1 hmg; cases h; simp [usesMem]; exact ⟨_, hmg, Nat.le_refl _⟩
+    · rename_i fee m1 hmg; cases h; simp [usesMem, stipendOf]; exact ⟨_, hmg, Nat.le_refl _⟩
   | copier pos =>
     simp only [dynGas] at h
     split at h
     · cases h
-    · rename_i r m1 hw; cases h; simp [usesMem]; exact wordCopyGas_mem hw
+    · rename_i r m1 hw; cases h; simp [usesMem, stipendOf]; exact wordCopyGas_mem hw
   | sha3 =>
     simp only [dynGas] at h
     split at h
     · cases h
-    · rename_i r m1 hw; cases h; simp [usesMem]; exact wordCopyGas_mem hw
+    · rename_i r m1 hw; cases h; simp [usesMem, stipendOf]; exact wordCopyGas_mem hw
   | create2 =>
     simp only [dynGas] at h
     split at h
     · cases h
-    · rename_i r m1 hw; cases h; simp [usesMem]; exact wordCopyGas_mem hw
+    · rename_i r m1 hw; cases h; simp [usesMem, stipendOf]; exact wordCopyGas_mem hw
   | sstore =>
     simp only [dynGas] at h
     repeat' split at h
@@ -118,7 +124,7 @@ theorem dynGas_mem (gc : GasCfg) (f : DynFn) (s : List Word) (m m' : Mem) (ms ga
     simp only [dynGas] at h
     split at h
     · cases h
-    · rename_i r m1 hw; cases h; simp [usesMem]; exact logGas_mem hw
+    · rename_i r m1 hw; cases h; simp [usesMem, stipendOf]; exact logGas_mem hw
   | expFrontier =>
     simp only [dynGas] at h
     split at h <;> cases h
@@ -131,7 +137,8 @@ theorem dynGas_mem (gc : GasCfg) (f : DynFn) (s : List Word) (m m' : Mem) (ms ga
     simp only [dynGas] at h
     split at h
     · cases h
-    · split at h
+    · rename_i gasv g1 hr
+      split at h
       · cases h
       · rename_i memGas m1 hmg
         split at h
@@ -139,7 +146,20 @@ theorem dynGas_mem (gc : GasCfg) (f : DynFn) (s : List Word) (m m' : Mem) (ms ga
         · rename_i hov
           have := safeAdd_ok (Bool.eq_false_iff.mpr hov)
           obtain ⟨rfl, hb⟩ := finishCall_mem h
-          simp [usesMem]; exact ⟨memGas, hmg, by omega⟩
+          have hst : stipendOf .call s ≤ gasv := by
+            unfold stipendOf
+            simp only
+            split
+            · rename_i hv
+              rw [if_pos hv] at hr
+              split at hr
+              · simp only [Option.some.injEq, Prod.mk.injEq] at hr
+                obtain ⟨h1, _⟩ := hr
+                split at h1 <;> omega
+              · cases hr
+            · omega
+          simp only [usesMem, Bool.true_eq_false, false_implies, true_and, forall_const]
+          exact ⟨memGas, hmg, by omega⟩
   | callcode =>
     simp only [dynGas] at h
     split at h
@@ -151,21 +171,30 @@ theorem dynGas_mem (gc : GasCfg) (f : DynFn) (s : List Word) (m m' : Mem) (ms ga
       · rename_i hov
         have := safeAdd_ok (Bool.eq_false_iff.mpr hov)
         obtain ⟨rfl, hb⟩ := finishCall_mem h
-        simp [usesMem]; exact ⟨memGas, hmg, by omega⟩
+        have hst : stipendOf .callcode s ≤ bv := by
+          unfold stipendOf
+          simp only
+          split
+          · rename_i hv; rw [if_pos hv] at hbv; omega
+          · omega
+        simp only [usesMem, Bool.true_eq_false, false_implies, true_and, forall_const]
+        exact ⟨memGas, hmg, by omega⟩
   | delegatecall =>
     simp only [dynGas] at h
     split at h
     · cases h
     · rename_i memGas m1 hmg
       obtain ⟨rfl, hb⟩ := finishCall_mem h
-      simp [usesMem]; exact ⟨memGas, hmg, hb⟩
+      simp only [usesMem, stipendOf, Bool.true_eq_false, false_implies, true_and, forall_const]
+      exact ⟨memGas, hmg, by omega⟩
   | staticcall =>
     simp only [dynGas] at h
     split at h
     · cases h
     · rename_i memGas m1 hmg
       obtain ⟨rfl, hb⟩ := finishCall_mem h
-      simp [usesMem]; exact ⟨memGas, hmg, hb⟩
+      simp only [usesMem, stipendOf, Bool.true_eq_false, false_implies, true_and, forall_const]
+      exact ⟨memGas, hmg, by omega⟩
   | selfdestruct =>
     simp only [dynGas] at h
     repeat' split at h
@@ -209,9 +238,9 @@ theorem dynGas_mem (gc : GasCfg) (f : DynFn) (s : List Word) (m m' : Mem) (ms ga
             · rename_i hov
               have := safeAdd_ok (Bool.eq_false_iff.mpr hov)
               simp only [DynRes.ok.injEq] at h
-              obtain ⟨hc, hm, _, _⟩ := h
+              obtain ⟨hc, hm, _, hcg⟩ := h
               subst hm
-              simp only [usesMem, Bool.true_eq_false, false_implies, true_and, forall_const]
+              simp only [usesMem, stipendOf, Bool.true_eq_false, false_implies, true_and, forall_const]
               exact ⟨memGas, hmg, by omega⟩
 
 theorem resize_size (m : Mem) (n : Nat) : (m.resize n).size = max m.size n ∧ (m.resize n).lastGasCost = m.lastGasCost := by
@@ -237,7 +266,8 @@ theorem memory_paid_step (cx : Ctx) (ht : TableOk cx.table) (ro : Bool) (fr : Fr
     (hm : MemInv fr.mem) (hpre : stepPre cx ro fr g = .ok info fr1 args g1 cgt) :
     MemInv fr1.mem ∧ fr.mem.size ≤ fr1.mem.size ∧
     fr1.gas + info.constGas +
-      (cmem (fr1.mem.size / 32) - cmem (fr.mem.size / 32)) * (if cx.gc.p26 then 30 else 1) ≤ fr.gas := by
+      (cmem (fr1.mem.size / 32) - cmem (fr.mem.size / 32)) * (if cx.gc.p26 then 30 else 1) +
+      (if usesMem info.dyn then cgt + stipendOf info.dyn fr.stack else 0) ≤ fr.gas := by
   have hp := stepPre_ok _ _ _ _ _ _ _ _ _ hpre
   have ha := ht _ _ hp.entry
   obtain ⟨memorySize, cost, m', hdyn, hgas, hmem, hms⟩ := hp.dyn
@@ -273,7 +303,12 @@ theorem memory_paid_step (cx : Ctx) (ht : TableOk cx.table) (ro : Bool) (fr : Fr
     rw [hmem, h0, hm']
     simp only [Nat.lt_irrefl, if_false]
     refine ⟨hm, Nat.le_refl _, ?_⟩
-    simp only [Nat.sub_self, Nat.zero_mul]; omega
+    simp only [Nat.sub_self, Nat.zero_mul]
+    cases hu : usesMem info.dyn with
+    | false => simp only [Bool.false_eq_true, if_false]; omega
+    | true =>
+      obtain ⟨fee, hmg, hfc⟩ := hdm.2 hu
+      simp only [if_true]; omega
   · -- a memory-size function exists, so the entry is priced by a memory-charging function
     have huses : usesMem info.dyn = true := by
       cases hmf : memSizeFn info.mem fr.stack with
@@ -313,7 +348,7 @@ theorem memory_paid_step (cx : Ctx) (ht : TableOk cx.table) (ro : Bool) (fr : Fr
       · rw [hrs.1, hsz]; omega
       · rw [hrs.1, hsz]
         have e : max fr.mem.size memorySize = memorySize := by omega
-        rw [e, ← hw, hfee']; omega
+        rw [e, ← hw, hfee', huses]; simp only [if_true]; omega
     · rename_i hle
       simp only [Option.some.injEq, Prod.mk.injEq] at hmg
       obtain ⟨_, hm'⟩ := hmg
@@ -324,7 +359,7 @@ theorem memory_paid_step (cx : Ctx) (ht : TableOk cx.table) (ro : Bool) (fr : Fr
       · rw [hrs.1, e]; exact hm.bounded
       · rw [hrs.2, hrs.1, e]; exact hm.paid
       · rw [hrs.1, e]; exact Nat.le_refl _
-      · rw [hrs.1, e]; simp only [Nat.sub_self, Nat.zero_mul]; omega
+      · rw [hrs.1, e, huses]; simp only [Nat.sub_self, Nat.zero_mul, if_true]; omega
 
 /-- the write-back of a callee's result and every `execute` keep the invariant -/
 theorem memInv_of_size {m m' : Mem} (h : MemInv m) (hs : m'.size = m.size) (hl : m'.lastGasCost = m.lastGasCost) :
